@@ -460,3 +460,9 @@ _extra("C18", [worker("asan", ["explore", "C18", "--cases", "1200"], build="asan
 _extra("C11", [worker("plain", ["kernels", "C11", "--reps", "60"], build="plain", tiers=("thorough",), watchdog=(3600, 3600))])
 _extra("C12", [worker("plain", ["bq", "C12", "--random", "2000"], build="plain", tiers=("thorough",), watchdog=(3600, 3600))])
 _extra("C20", [worker("plain", ["explore", "C20", "--cases", "2600"], build="plain", tiers=("thorough",), watchdog=(3600, 3600))])
+
+# monitor self-tests (every tier): the walker, the top-k oracle and the reference decoder must reject a
+# state corrupted in exactly the way each of their clauses forbids; a miss makes the run inconclusive
+for _p in ("C01", "C02", "C16"):
+    _extra(_p, [worker("selftest", ["selftest", _p], shards=1, watchdog=(300, 300))],
+           ["monitor self-test leg: 36 single-clause corruptions of a valid index / answer / dump must each be rejected"])
